@@ -2,6 +2,7 @@ package main
 
 import (
 	"fmt"
+	"strconv"
 	"strings"
 
 	"golang.org/x/tools/go/ssa"
@@ -21,7 +22,7 @@ var libInvokeMods = map[string][]string{
 
 func libAllocates(name string) bool {
 	switch name {
-	case "bytes.NewBuffer", "bytes.NewBufferString", "strings.NewReader", "io.LimitReader", "bufio.NewReader", "bufio.NewReaderSize", "errors.New", "fmt.Errorf", "net.DialTCP", "net.Dial", "net.ResolveUDPAddr", "net.ResolveTCPAddr":
+	case "bytes.NewBuffer", "bytes.NewBufferString", "strings.NewReader", "io.LimitReader", "bufio.NewReader", "bufio.NewReaderSize", "errors.New", "fmt.Errorf", "net.DialTCP", "net.Dial", "net.ResolveUDPAddr", "net.ResolveTCPAddr", "regexp.Compile":
 		return true
 	}
 	return false
@@ -152,7 +153,11 @@ func init() {
 			return &Val{T: "(str.indexof " + a[0].T + " " + a[1].T + " 0)", S: SInt}
 		},
 		"strings.IndexByte": func(fr *Frame, ins ssa.Instruction, a []*Val, rs *Sort) *Val {
-			return &Val{T: "(str.indexof " + a[0].T + " (str.from_code " + a[1].T + ") 0)", S: SInt}
+			needle := "(str.from_code " + a[1].T + ")"
+			if c, err := strconv.Atoi(a[1].T); err == nil && c >= 0x20 && c < 0x7f {
+				needle = smtString(string(rune(c))) // a constant printable byte: write the character itself
+			}
+			return &Val{T: "(str.indexof " + a[0].T + " " + needle + " 0)", S: SInt}
 		},
 		"strings.LastIndex": func(fr *Frame, ins ssa.Instruction, a []*Val, rs *Sort) *Val {
 			return &Val{T: "(lastIndexOf " + a[0].T + " " + a[1].T + ")", S: SInt}
@@ -440,6 +445,20 @@ func init() {
 			fr.ex.vc.assume("(= (= " + errv.T + " anyNil) (reValid " + a[0].T + "))")
 			return tuple(&Val{T: "(and (reValid " + a[0].T + ") (reMatch " + a[0].T + " " + a[1].T + "))", S: SBool}, errv)
 		},
+		"regexp.Compile": func(fr *Frame, ins ssa.Instruction, a []*Val, rs *Sort) *Val {
+			// a compiled pattern is a fresh object that remembers its source text; compilation fails exactly on invalid patterns
+			ex := fr.ex
+			errv := fr.havocVal("re_err", SAny)
+			r := ex.alloc(fr.cur, "re")
+			ex.vc.assume("(= (= " + errv.T + " anyNil) (reValid " + a[0].T + "))")
+			ex.vc.assume(imp(eq(errv.T, "anyNil"), eq("(rePattern "+r+")", a[0].T)))
+			ps := SRef("regexp_Regexp")
+			if rs != nil && rs.K == KTuple && len(rs.Tuple) == 2 {
+				ps = rs.Tuple[0]
+			}
+			v := ex.vc.define("compiled", ps, ite(eq(errv.T, "anyNil"), r, "0"))
+			return tuple(&Val{T: v, S: ps}, errv)
+		},
 		"(*regexp.Regexp).MatchString": func(fr *Frame, ins ssa.Instruction, a []*Val, rs *Sort) *Val {
 			return &Val{T: "(reMatch (rePattern " + a[0].T + ") " + a[1].T + ")", S: SBool}
 		},
@@ -697,6 +716,7 @@ func (fr *Frame) newBufioReader(src *Val) *Val {
 //   - no "\n" left: the rest of the stream as it is, isPrefix false;
 //   - a fragment (line longer than the buffer, whatever its size): a non-empty prefix of the line that does not
 //     end in "\r" and stops short of the "\n", isPrefix true.
+//
 // The returned slice aliases the reader's buffer until the next read (Borrow).
 func (fr *Frame) readLine(rdv *Val) *Val {
 	ex := fr.ex
